@@ -93,6 +93,29 @@ CHECKS = {
         technique="runtime monitor against an executable reference model over an enumerated configuration grid",
         design="DESIGN.md section 2, C06",
     ),
+    "C07": dict(
+        script="checks/c07.py",
+        level="exploration",
+        text="For every background name and several hundred double-beta configurations (weighted towards the schemes with angular-"
+             "correlation fix-ups) the canonical event of a tape (fresh generator, fresh event, first shot) is compared bit for bit with the "
+             "event after each of ten kinds of history: prior shots (1/7/1000), reused or pre-filled (0..150 junk particles) or moved-from "
+             "event objects, forced capacities, foreign instances created/initialised (also failing, also gA)/shot/reset/destroyed in between, "
+             "reset + identical re-configuration, another initialisation deviate source, live twin instances.",
+        note="Bit-identity between runs of the same binary; histories are short programs over the public API composed from VERIF_SEED.",
+        technique="runtime history monitor: replayed deviate tape, canonical-run oracle, bitwise comparison",
+        design="DESIGN.md section 2, C07",
+    ),
+    "C08": dict(
+        script="checks/c08.py",
+        level="exploration",
+        text="The generation drivers (hostile-tape monitor over all background names and sampled double-beta configurations incl. windows "
+             "reaching the end of the 1-keV tables, event-reuse histories, and - once built - post-generation operations and the gA sampler) "
+             "run in the ASan+UBSan build with libstdc++ assertions and vector annotations; reports are fatal and keyed kind|frame0|frame1; "
+             "a canary self-test proves the runtime is active before anything is believed.",
+        note="Red-zone tools miss intra-object overflows and recycled memory; libgsl/libstdc++ uninstrumented; held on the executions driven.",
+        technique="compiler sanitizers (AddressSanitizer + UndefinedBehaviorSanitizer + _GLIBCXX_ASSERTIONS) under steered workloads",
+        design="DESIGN.md section 2, C08",
+    ),
     "C16": dict(
         script="checks/c16.py",
         level="exploration",
